@@ -2,7 +2,7 @@
 import gen
 
 ID = "C05"
-LEVEL_TEXT = ("For every finite ordered tree (no bound on size or depth) the Lean mirror of each of the five iterators, with default arguments, is proved equal to the textbook pre-/post-/level-order traversal (and its grouped and zig-zag forms); all traversals are proved permutations of the pre-order, so each enumerates every node once. The mirror is tied to /repo's iterators by running both on every shape up to 5 (thorough 7) nodes from every start node and on random larger shapes, also checking that iteration does not modify the tree.")
+LEVEL_TEXT = ("For every finite ordered tree (no bound on size or depth) the Lean mirror of each of the five iterators, with default arguments, is proved equal to the textbook pre-/post-/level-order traversal (and its grouped and zig-zag forms); all traversals are proved permutations of the pre-order, and per iterator it is proved that the mirror yields exactly size(t) nodes, yields a payload iff the pre-order lists it, and yields none twice under pairwise distinct payloads. The mirror is tied to /repo's iterators by running both on every shape up to 5 (thorough 7) nodes from every start node and on random larger shapes, also checking that iteration does not modify the tree.")
 LEVEL_NOTE = ("Trusted: Lean kernel; standard axioms only (propext, Classical.choice, Quot.sound); the hand-written mirror lean/Anytree/Model/Iter.lean (the stop filter of PostOrderIter's recursive call is fused into its loop); the correspondence run's generators. Node identity is modelled by the node's subtree value; 'exactly once' is stated multiset-wise and under pairwise distinct payloads.")
 THEOREMS = [
     ("Anytree.Props.C05.preIter_eq", "full"),
@@ -21,8 +21,26 @@ THEOREMS = [
     ("Anytree.Props.C05b.pieces_flatten", "full"),
     ("Anytree.Props.C05b.exhausted_stays", "full"),
     ("Anytree.Props.C05b.preIter_pieces", "full"),
+    ("Anytree.Props.C05c.pre_length", "full"),
+    ("Anytree.Props.C05c.postIter_perm", "full"),
+    ("Anytree.Props.C05c.levelIter_perm", "full"),
+    ("Anytree.Props.C05c.groupIter_perm", "full"),
+    ("Anytree.Props.C05c.zigzagIter_perm", "full"),
+    ("Anytree.Props.C05c.preIter_length", "full"),
+    ("Anytree.Props.C05c.postIter_length", "full"),
+    ("Anytree.Props.C05c.levelIter_length", "full"),
+    ("Anytree.Props.C05c.groupIter_length", "full"),
+    ("Anytree.Props.C05c.zigzagIter_length", "full"),
+    ("Anytree.Props.C05c.postIter_mem", "full"),
+    ("Anytree.Props.C05c.levelIter_mem", "full"),
+    ("Anytree.Props.C05c.groupIter_mem", "full"),
+    ("Anytree.Props.C05c.zigzagIter_mem", "full"),
+    ("Anytree.Props.C05c.postIter_nodup", "full"),
+    ("Anytree.Props.C05c.levelIter_nodup", "full"),
+    ("Anytree.Props.C05c.groupIter_nodup", "full"),
+    ("Anytree.Props.C05c.zigzagIter_nodup", "full"),
 ]
-MODULES = ["Anytree.Props.C05", "Anytree.Props.C05b"]
+MODULES = ["Anytree.Props.C05", "Anytree.Props.C05b", "Anytree.Props.C05c"]
 NOT_COVERED = []
 RULE = ("every ordered tree shape up to N nodes (quick 5, thorough 7) with pre-order and shuffled labels, every "
         "start node, all five iterators with default arguments; plus seeded random shapes (chains, stars, combs, "
